@@ -336,16 +336,19 @@ Section Sound.
       unfold P. simpl. rewrite !Z.eqb_refl. reflexivity.
   Qed.
 
-  Lemma p_supply_sound s code : Inv s -> Inv2 s -> p_supply (obs_of s code) = true.
+  Lemma p_supply_sound s code : Inv s -> Inv2 s -> (forall c, n_tokens s c < two64) ->
+    p_supply (obs_of s code) = true.
   Proof.
-    intros HI (Hc & Ho & Hs & Hcov). pose proof HI as (_ & Hnd & Hiff & Hsup & Hidx & Hcls & _).
+    intros HI (Hc & Ho & Hs & Hcov) Hsmall. pose proof HI as (_ & Hnd & Hiff & Hsupm & Hidx & Hcls & _).
+    assert (Hsup : forall c, total_supply s c = n_tokens s c).
+    { intros c. rewrite Hsupm. apply Z.mod_small. split; [apply count_nonneg|apply Hsmall]. }
     unfold p_supply. rewrite !Bool.andb_true_iff. repeat split.
     - apply forallb_forall. intros [c cl] Hin. rewrite n_of_class_eq.
       assert (Hck : In c (keys (classes s))) by (change (In c (map fst (classes s))); apply in_map_iff; exists (c, cl); auto).
       apply andb_true_intro. split; apply Z.eqb_eq.
       + apply Hsup.
       + unfold obs_of. cbn [o_bal]. rewrite (bal_block s c Hc Hck).
-        destruct (supply_lemma s HI) as (_ & _ & _ & Hsum). rewrite (Hsum c actors actors_nodup); [apply Hsup|].
+        destruct (supply_lemma s HI) as (_ & _ & _ & _ & Hsum). rewrite (Hsum c actors actors_nodup); [reflexivity|].
         intros a t Hin2. eapply Hcov. exact Hin2.
     - apply forallb_forall. intros [c v] Hin. unfold obs_of in *. cbn [o_supply o_classes] in *.
       destruct (has c (classes s)) eqn:Hh; [reflexivity|]. simpl. apply Z.eqb_eq.
@@ -590,10 +593,11 @@ Section Sound.
 
   (** *** the checker on a model trace *)
   Lemma prop_sound s st c0 : Inv s -> Inv2 s -> Inv (next s st) -> Inv2 (next s st) ->
+    (forall c, n_tokens (next s st) c < two64) ->
     prop_step (obs_of s c0) (obs_of (next s st) (code_of s st)) st = 0.
   Proof.
-    intros HI HI2 HI' HI2'. unfold prop_step.
-    rewrite (p_owner_sound _ _ HI' HI2'), (p_supply_sound _ _ HI' HI2'), (p_frozen_sound s st c0 HI),
+    intros HI HI2 HI' HI2' Hsmall. unfold prop_step.
+    rewrite (p_owner_sound _ _ HI' HI2'), (p_supply_sound _ _ HI' HI2' Hsmall), (p_frozen_sound s st c0 HI),
       (p_mint_sound s st c0 HI HI'), (p_auth_sound s st c0 HI HI'), (p_class_sound s st c0 HI2), (p_frame_sound s st c0 HI HI2).
     reflexivity.
   Qed.
@@ -604,21 +608,29 @@ Section Sound.
     exact (Inv2_step s msg s' HI2 Hcov He).
   Qed.
 
-  Lemma check_sound steps : forall s c0 i, Inv s -> Inv2 s -> Forall step_covered steps ->
+  (** the supply counter of the x/nft keeper is a uint64: the clause "supply = number of tokens" is
+      evaluated on integers, so the trace must be short enough for the counter not to have wrapped *)
+  Lemma check_sound steps : forall s c0 i n, Inv s -> Inv2 s -> Forall step_covered steps ->
+    (forall c, n_tokens s c <= n) -> n + Z.of_nat (length steps) < two64 ->
     check_from s (obs_of s c0) (model_trace s steps) i (-1) (-1) 0 = (-1, -1, 0).
   Proof.
-    induction steps as [|st rest IH]; intros s c0 i HI HI2 Hcov; [reflexivity|].
+    induction steps as [|st rest IH]; intros s c0 i n HI HI2 Hcov Hb Hlen; [reflexivity|].
     inversion Hcov as [|? ? Hst Hrest]; subst.
+    cbn [length] in Hlen. rewrite Nat2Z.inj_succ in Hlen.
     pose proof (step_inv s st HI) as HI'. pose proof (Inv2_next s st HI2 Hst) as HI2'.
+    assert (Hb' : forall c, n_tokens (next s st) c <= n + 1).
+    { intros c. pose proof (n_tokens_next s st c). specialize (Hb c). lia. }
+    assert (Hsmall : forall c, n_tokens (next s st) c < two64) by (intros c; specialize (Hb' c); lia).
     cbn [model_trace check_from].
-    rewrite (corr_sound s st HI' HI2'), (prop_sound s st c0 HI HI2 HI' HI2'). simpl.
-    apply IH; assumption.
+    rewrite (corr_sound s st HI' HI2'), (prop_sound s st c0 HI HI2 HI' HI2' Hsmall). simpl.
+    apply (IH _ _ _ (n + 1)); auto. lia.
   Qed.
 
-  Lemma model_passes_check_lemma steps : Forall step_covered steps ->
+  Lemma model_passes_check_lemma steps : Forall step_covered steps -> Z.of_nat (length steps) < two64 ->
     check_case (model_trace init steps) = (-1, -1, 0).
   Proof.
-    intros Hcov. unfold check_case. change obs0 with (obs_of init 0).
-    apply check_sound; [apply Inv_init|apply Inv2_init|exact Hcov].
+    intros Hcov Hlen. unfold check_case. change obs0 with (obs_of init 0).
+    apply (check_sound steps init 0 0 0); [apply Inv_init|apply Inv2_init|exact Hcov| |lia].
+    intros c. unfold n_tokens, count, init. simpl. lia.
   Qed.
 End Sound.
